@@ -286,6 +286,7 @@ var integer32 = []*instructionType{
 		opcode:       opcodeShiftImm(false, 5, 0b001, 0b0010011),
 		inputRegCnt:  1,
 		hasOutputReg: true,
+		immediate:    immTypeShamt,
 		effects: func(i instruction) []expr.Effect {
 			val := regImmShift(binOpFunc(expr.Lsh), i, 5, width32)
 			return []expr.Effect{regStore(val, i, width32)}
@@ -295,6 +296,7 @@ var integer32 = []*instructionType{
 		opcode:       opcodeShiftImm(false, 5, 0b101, 0b0010011),
 		inputRegCnt:  1,
 		hasOutputReg: true,
+		immediate:    immTypeShamt,
 		effects: func(i instruction) []expr.Effect {
 			val := regImmShift(binOpFunc(expr.Rsh), i, 5, width32)
 			return []expr.Effect{regStore(val, i, width32)}
@@ -304,6 +306,7 @@ var integer32 = []*instructionType{
 		opcode:       opcodeShiftImm(true, 5, 0b101, 0b0010011),
 		inputRegCnt:  1,
 		hasOutputReg: true,
+		immediate:    immTypeShamt,
 		effects: func(i instruction) []expr.Effect {
 			val := regImmShift(exprtools.RshA, i, 5, width32)
 			return []expr.Effect{regStore(val, i, width32)}
@@ -507,6 +510,7 @@ var integer32 = []*instructionType{
 		opcode:       opcode10(0b101, 0b1110011),
 		inputRegCnt:  0,
 		hasOutputReg: true,
+		uimm:         true,
 		immediate:    immTypeI,
 		instrType:    model.TypeCPUStateChange,
 		effects: func(i instruction) []expr.Effect {
@@ -521,6 +525,7 @@ var integer32 = []*instructionType{
 		opcode:       opcode10(0b110, 0b1110011),
 		inputRegCnt:  0,
 		hasOutputReg: true,
+		uimm:         true,
 		immediate:    immTypeI,
 		instrType:    model.TypeCPUStateChange,
 		effects: func(i instruction) []expr.Effect {
@@ -537,6 +542,7 @@ var integer32 = []*instructionType{
 		opcode:       opcode10(0b111, 0b1110011),
 		inputRegCnt:  0,
 		hasOutputReg: true,
+		uimm:         true,
 		immediate:    immTypeI,
 		instrType:    model.TypeCPUStateChange,
 		effects: func(i instruction) []expr.Effect {
